@@ -407,6 +407,9 @@ def r_named_constants(rule, root=None):
         rule.bad("Axis::try_from", "Axis::try_from must divide by the vector's norm", A.where(fn))
 
 
+from . import C13  # noqa: E402
+
+
 def run(ctx):
     r = ctx.rule("R1", "named axes and planes denote what their names say", 7)
     ctx.guarded(r, r_named_constants)
@@ -416,3 +419,9 @@ def run(ctx):
     ctx.guarded(r, r_revolve_composition)
     r = ctx.rule("R3", "transforms apply the inverse of their documented action, on the axis their name says", 36)
     ctx.guarded(r, r_transforms)
+    # "arbitrary nesting of transforms": a transform is a lazy remap node, and nesting composes only if the
+    # importer evaluates each remap in the frame of the one around it (the rules are C13's, read here too)
+    r = ctx.rule("R4", "nested transforms compose: the importer lowers each remap in the innermost enclosing frame", 8)
+    ctx.guarded(r, C13.r5_axis_roles)
+    r = ctx.rule("R4b", "nested transforms compose: importer frames are pushed and popped around their target", 7)
+    ctx.guarded(r, C13.r3_frames)
